@@ -94,6 +94,13 @@ def main():
 
 
 def finish(dst, meta, res):
+    if not res.get("applies") and meta.get("confirmed_by_main_session", {}).get("applies"):
+        # the stored patch no longer applies to /repo HEAD (a later fix touched the same lines): keep the last confirmed result
+        meta["stale_at_repo_head"] = res.get("repo_head")
+        json.dump(meta, open(os.path.join(dst, "meta.json"), "w"), indent=1)
+        print(json.dumps({"applies": False, "kept_previous_result": True}))
+        return
+    meta.pop("stale_at_repo_head", None)
     meta["confirmed_by_main_session"] = res
     json.dump(meta, open(os.path.join(dst, "meta.json"), "w"), indent=1)
     brief = {k: res.get(k) for k in ("applies", "builds", "demo_passes_unpatched", "demo_fails_patched", "own_tests_pass_patched", "check_fired", "check_no_failing_input")}
